@@ -71,7 +71,9 @@ def oracle(ctx: Ctx, n: int, git: bool) -> None:
             args = [a for a in fstree.gen_args(rng, t) if Path(a).exists() or any(c in a for c in "*?[")]
             if not args:
                 continue
-            case = {"settings": s, "args": [a.replace(str(t.base), "") for a in args], "tree": resolvetie.listing(t)}
+            args, wd = fstree.relativise(rng, t, args)
+            os.chdir(wd)
+            case = {"settings": s, "args": [a.replace(str(t.base), "") for a in args], "cwd": wd.replace(str(t.base), ""), "tree": resolvetie.listing(t)}
             try:
                 real = fstree.real_resolve(s, args)
             except Exception as e:
@@ -113,6 +115,7 @@ def oracle(ctx: Ctx, n: int, git: bool) -> None:
                 ctx.fail("LISTING_ORDER: the result depends on the order in which directories list their entries", case,
                          {"first": short(t, real), "second": short(t, r3)})
         finally:
+            os.chdir("/")
             t.close()
 
 
